@@ -75,6 +75,23 @@ class Replay:
                 self.proc.kill()
 
 
+def approx_same(a, b, rel=1e-8):
+    """structural equality with floats compared up to rounding noise (the interpreter computes in exact reals)"""
+    if isinstance(a, bool) or isinstance(b, bool):
+        return a is b or a == b and type(a) is type(b)
+    if isinstance(a, (int, float)) and isinstance(b, (int, float)):
+        if a == b or (a != a and b != b):
+            return True
+        if isinstance(a, int) and isinstance(b, int):
+            return False
+        return abs(a - b) <= rel * max(1.0, abs(a), abs(b))
+    if isinstance(a, (list, tuple)) and isinstance(b, (list, tuple)):
+        return len(a) == len(b) and all(approx_same(x, y, rel) for x, y in zip(a, b))
+    if isinstance(a, dict) and isinstance(b, dict):
+        return a.keys() == b.keys() and all(approx_same(a[k], b[k], rel) for k in a)
+    return a == b
+
+
 class Violation:
     def __init__(self, harness, label, role, case, judge, desc):
         self.harness, self.label, self.role, self.case, self.judge, self.desc = harness, label, role, case, judge, desc
@@ -237,7 +254,7 @@ class Check:
             want = normalize_native(nat)
             if normalize_py:
                 got = normalize_py(got)
-            if got != want:
+            if got != want and not approx_same(got, want):
                 self.validation_mismatch.append({'what': what, 'case': case, 'interpreter': repr(got)[:500], 'native': repr(want)[:500]})
             else:
                 self.validated += 1
